@@ -472,7 +472,7 @@ V("root", ["I", "rt_u32"], o_root, fix=fix_root)
 # ------------------------------------------------------------------ misc: specification oracle only (no model)
 def o_logp(a, p):
     if p < 2:
-        return "THROWS"      # no logarithm for a base < 2: the call must return (by raising), frag/C01.fix-6.diff
+        return "THROWS"      # no logarithm for a base < 2: GivMathError (since /repo 2291e98)
     k, q = 0, p
     while q <= a:
         q *= p; k += 1
@@ -503,7 +503,7 @@ V("swap", ["I", "I"], lambda a, b: [b, a], oracle_only=True)
 
 def o_pp(P, Q):
     if P == 0:
-        return 0             # the call must return; 0 is the fixed point of the loop (frag/C01.fix-5.diff)
+        return 0             # every integer divides 0: the code returns 0 (since /repo 348f995)
     U, W = P, math.gcd(P, Q)
     while W != 1:
         U = tq(U, W); W = math.gcd(U, W)
@@ -527,9 +527,7 @@ def fix_pp(rng, a):
 V("pp", ["I", "I"], o_pp, fix=fix_pp, site="pp(const Integer&,const Integer&)",
   klass=lambda P, Q: "P=0,|Q|>=2: does not return" if P == 0 and abs(Q) >= 2 else "other",
   probes=[[0, 5], [0, -2], [0, 2**64]])
-# bodies for which a repair is pending: model name -> (file, signature, sha of the repaired body, model of the repaired body)
-FIXED_BODIES["pp"] = ("src/kernel/gmp++/gmp++_int_gcd.C", "Integer pp( const Integer& P, const Integer& Q )", "0c8bebf2665f", "pp_fixed")
-FIXED_BODIES["logp"] = ("src/kernel/gmp++/gmp++_int_misc.C", "int64_t logp(const Integer& a, const Integer& p)", "3ed29b452ccb", "logp_fixed")
+# (no repair is pending: frag/C01.fix-5/.fix-6 are in /repo as 348f995 / 2291e98 and the model follows them; FIXED_BODIES stays empty)
 
 
 def o_perfect(a):
